@@ -83,9 +83,77 @@ type sFile struct {
 type fileSet struct {
 	files []*sFile
 	main  int
+	cur   int // the file being printed (relative paths)
 }
 
-func pathName(p int, f int) string { return fmt.Sprintf("f%d%s", p, fmtExt[f]) }
+// Directories: the directory ("" the root, "d1/", "d1/e1/") and the base name of a file, by path id.
+// They are chosen by the generator (reset for each generated set); two files of different
+// directories may have the same base name, so that the same relative spelling in two files
+// denotes two files. The calculus of the model refers to files by id: directories are the
+// business of the path resolution of the compiler only.
+var pathDir = map[int]string{}
+var pathBase = map[int]string{}
+
+func pathName(p int, f int) string {
+	base, ok := pathBase[p]
+	if !ok {
+		base = fmt.Sprintf("f%d", p)
+	}
+	return pathDir[p] + base + fmtExt[f]
+}
+
+// refName is how the file `from` spells the path of the file `to`: rooted, or relative to its
+// own directory (the choice is a function of the two ids, so that a set prints the same every time).
+func refName(from, to int, toFmt int) string {
+	full := pathName(to, toFmt)
+	if (from*31+to*7)%3 == 0 {
+		return "/" + full
+	}
+	df := pathDir[from]
+	// common directory prefix
+	fs, ts := strings.Split(df, "/"), strings.Split(pathDir[to], "/")
+	fs, ts = fs[:len(fs)-1], ts[:len(ts)-1]
+	i := 0
+	for i < len(fs) && i < len(ts) && fs[i] == ts[i] {
+		i++
+	}
+	rel := strings.Repeat("../", len(fs)-i)
+	for _, d := range ts[i:] {
+		rel += d + "/"
+	}
+	return rel + strings.TrimPrefix(full, pathDir[to])
+}
+
+var dirPool = []string{"", "", "d1/", "d2/", "d1/e1/"}
+
+// place chooses the directory and the base name of a new file
+func (g *gen) place(sf *sFile) {
+	if !g.dirs {
+		return
+	}
+	dir := dirPool[g.c.Rng.Intn(len(dirPool))]
+	base := fmt.Sprintf("f%d", sf.path)
+	if g.c.Rng.Intn(2) == 0 {
+		// the base name of a file of another directory, when it is free here
+		for _, o := range g.fs.files {
+			ob, ok := pathBase[o.path]
+			if !ok || pathDir[o.path] == dir || o.path == sf.path {
+				continue
+			}
+			free := true
+			for _, x := range g.fs.files {
+				if x.path != sf.path && pathDir[x.path] == dir && pathBase[x.path] == ob {
+					free = false
+				}
+			}
+			if free {
+				base = ob
+				break
+			}
+		}
+	}
+	pathDir[sf.path], pathBase[sf.path] = dir, base
+}
 func macroName(n int) string     { return fmt.Sprintf("M%d", n) }
 func aliasName(n int) string     { return fmt.Sprintf("al%d", n) }
 func valName(n int) string       { return fmt.Sprintf("v%d", n) }
@@ -109,7 +177,7 @@ func (fs *fileSet) expSrc(e sExp) string {
 	case 'p':
 		return paramName(e.n)
 	case 'r':
-		return fmt.Sprintf("render %q", "/"+pathName(e.n, fs.file(e.n).fmt))
+		return fmt.Sprintf("render %q", refName(fs.cur, e.n, fs.file(e.n).fmt))
 	case 'c':
 		var as []string
 		for _, a := range e.args {
@@ -151,15 +219,16 @@ const recoverStmt = "{% defer func() { recover() }() %}"
 
 func (fs *fileSet) fileSrc(f *sFile) string {
 	var b strings.Builder
+	fs.cur = f.path
 	if f.extends >= 0 {
-		b.WriteString(fmt.Sprintf("{%% extends %q %%}", "/"+pathName(f.extends, fs.file(f.extends).fmt)))
+		b.WriteString(fmt.Sprintf("{%% extends %q %%}", refName(f.path, f.extends, fs.file(f.extends).fmt)))
 	}
 	for _, im := range f.imports {
 		b.WriteString("{% import ")
 		if im.alias >= 0 {
 			b.WriteString(aliasName(im.alias) + " ")
 		}
-		b.WriteString(fmt.Sprintf("%q", "/"+pathName(im.path, fs.file(im.path).fmt)))
+		b.WriteString(fmt.Sprintf("%q", refName(f.path, im.path, fs.file(im.path).fmt)))
 		if im.forL != nil {
 			var ns []string
 			for _, n := range im.forL {
@@ -289,10 +358,35 @@ var tvals = []tval{
 	{v: strings.Repeat("kl", 300), typ: (*string)(nil), url: strings.Repeat("kl", 300)},
 }
 
+// values that are not strings (ids from bvalBase on): they are only shown, in the contexts
+// that accept their type, never passed to macros. Their show functions issue several Write calls.
+const bvalBase = 100
+
+var bvals = []tval{
+	{v: []byte("ab<c"), typ: (*[]byte)(nil)},
+	{v: patternBytes(769), typ: (*[]byte)(nil)},
+	{v: []byte{}, typ: (*[]byte)(nil)},
+	{v: []any{1, "a<", []byte("xy")}, typ: (*[]any)(nil)},
+	{v: map[string]int{"b": 2, "a": 1}, typ: (*map[string]int)(nil)},
+}
+
+// the contexts (render context bytes) each of them is shown in
+var bvalCtxs = [][]byte{{1, 2, 3, 4}, {2, 3, 4}, {1, 3, 4}, {3, 4}, {3, 4}}
+
+func tvalByID(id int) tval {
+	if id >= bvalBase {
+		return bvals[id-bvalBase]
+	}
+	return tvals[id]
+}
+
 func tvalGlobals() native.Declarations {
 	d := native.Declarations{}
 	for i, v := range tvals {
 		d[valName(i)] = v.typ
+	}
+	for i, v := range bvals {
+		d[valName(bvalBase+i)] = v.typ
 	}
 	return d
 }
@@ -302,7 +396,22 @@ func tvalVars() map[string]any {
 	for i, v := range tvals {
 		m[valName(i)] = v.v
 	}
+	for i, v := range bvals {
+		m[valName(bvalBase+i)] = v.v
+	}
 	return m
+}
+
+// bvalFor picks a value of bvals that can be shown in the context c
+func (g *gen) bvalFor(c byte) sExp {
+	for {
+		i := g.c.Rng.Intn(len(bvals))
+		for _, x := range bvalCtxs[i] {
+			if x == c {
+				return sExp{kind: 'v', n: bvalBase + i}
+			}
+		}
+	}
 }
 
 // valsField: what Show does with each value in each context byte used by the set
@@ -337,11 +446,24 @@ func (fs *fileSet) valsField() string {
 	}
 	sort.Ints(cs)
 	var parts []string
-	for id, v := range tvals {
-		if !used[id] {
-			continue
-		}
+	var ids []int
+	for id := range used {
+		ids = append(ids, id)
+	}
+	sort.Ints(ids)
+	for _, id := range ids {
+		v := tvalByID(id)
 		for _, c := range cs {
+			if id >= bvalBase {
+				// only in the contexts it is shown in (elsewhere the checker rejects it)
+				ok := false
+				for _, x := range bvalCtxs[id-bvalBase] {
+					ok = ok || x == byte(c)
+				}
+				if !ok {
+					continue
+				}
+			}
 			o := rop{c: byte(c), val: rval{v: v.v, url: v.url, bad: v.bad}}
 			o.prepare()
 			f := o.field() // S:c:chunks:err:url
@@ -481,6 +603,8 @@ type gen struct {
 	allowRecFile bool
 	plainOnly bool
 	anyFormats bool
+	dirs      bool // files in several directories, relative paths
+	rendered  map[int]bool // files created by a render expression
 }
 
 var fmtTexts = [][]string{
@@ -559,6 +683,9 @@ func (g *gen) body(f int, in *sFile, child *sFile, nparams int, depth int, n int
 			ns = append(ns, g.text(f))
 		case k < 5:
 			ns = append(ns, sNode{kind: 'S', c: plain, e: g.valExp(nparams)})
+		case k == 5 && (f == fJS || f == fJSON || f == fCSS) && !g.plainOnly:
+			// a byte slice or a composite value: several Write calls for one show
+			ns = append(ns, sNode{kind: 'S', c: plain, e: g.bvalFor(plain)})
 		case k == 5 && f == fHTML && !g.noURL && !g.plainOnly:
 			// a URL attribute: texts and values only
 			q := []string{`"`, `'`, ``}[g.c.Rng.Intn(3)]
@@ -577,7 +704,13 @@ func (g *gen) body(f int, in *sFile, child *sFile, nparams int, depth int, n int
 			ns = append(ns, sNode{kind: 'T', txt: q + ">"})
 		case k == 6 && f == fHTML && !g.plainOnly:
 			// other contexts of HTML
-			switch g.c.Rng.Intn(4) {
+			switch g.c.Rng.Intn(7) {
+			case 4:
+				ns = append(ns, sNode{kind: 'T', txt: `<script>var a = `}, sNode{kind: 'S', c: 3, e: g.bvalFor(3)}, sNode{kind: 'T', txt: `;</script>`})
+			case 5:
+				ns = append(ns, sNode{kind: 'T', txt: `<style>a{b:`}, sNode{kind: 'S', c: 2, e: g.bvalFor(2)}, sNode{kind: 'T', txt: `}</style>`})
+			case 6:
+				ns = append(ns, sNode{kind: 'S', c: 1, e: g.bvalFor(1)})
 			case 0:
 				ns = append(ns, sNode{kind: 'T', txt: `<p title="`}, sNode{kind: 'S', c: 7, e: g.valExp(nparams)}, sNode{kind: 'T', txt: `">`})
 			case 1:
@@ -633,10 +766,30 @@ func (g *gen) body(f int, in *sFile, child *sFile, nparams int, depth int, n int
 				// {{ render }} takes the fast path whatever the formats: any pair
 				pf = g.c.Rng.Intn(6)
 			}
+			fast := kind == 'S' && (pf == f || (pf == fMarkdown && f == fHTML))
+			if g.c.Rng.Intn(3) == 0 {
+				// a file that is already rendered elsewhere (shared partial): only files created after the
+				// rendering one, so that the references stay acyclic
+				var cands []*sFile
+				for _, o := range g.fs.files {
+					if g.rendered[o.path] && o.path > in.path && o.fmt == pf && (!o.rec || fast) {
+						cands = append(cands, o)
+					}
+				}
+				if len(cands) > 0 {
+					p := cands[g.c.Rng.Intn(len(cands))]
+					ns = append(ns, sNode{kind: kind, c: plain, e: sExp{kind: 'r', n: p.path}})
+					continue
+				}
+			}
 			saved := g.allowRecFile
-			g.allowRecFile = kind == 'S' && (pf == f || (pf == fMarkdown && f == fHTML))
+			g.allowRecFile = fast
 			p := g.newFile(pf, depth+1, false)
 			g.allowRecFile = saved
+			if g.rendered == nil {
+				g.rendered = map[int]bool{}
+			}
+			g.rendered[p.path] = true
 			ns = append(ns, sNode{kind: kind, c: plain, e: sExp{kind: 'r', n: p.path}})
 		}
 	}
@@ -684,6 +837,7 @@ func (g *gen) newFile(f int, depth int, declOnly bool) *sFile {
 	sf := &sFile{path: g.nextPath, fmt: f, extends: -1}
 	g.nextPath++
 	g.fs.files = append(g.fs.files, sf)
+	g.place(sf)
 	if depth < g.maxDepth && g.c.Rng.Intn(3) == 0 {
 		// an imported file: declarations only
 		imp := g.newFile(f, depth+1, true)
@@ -945,11 +1099,14 @@ func runSources(files map[string]string, main string, conv bool) (tcResult, stri
 
 func genWith(g *gen) *fileSet {
 	c := g.c
+	pathDir, pathBase = map[int]string{}, map[int]string{}
+	g.dirs = c.Rng.Intn(3) == 0
 	f := []int{fHTML, fHTML, fHTML, fText, fMarkdown, fJS, fCSS, fJSON}[c.Rng.Intn(8)]
 	if c.Rng.Intn(5) == 0 {
 		lay := &sFile{path: g.nextPath, fmt: f, extends: -1}
 		g.nextPath++
 		g.fs.files = append(g.fs.files, lay)
+		g.place(lay)
 		child := g.newFile(f, 1, true)
 		child.extends = lay.path
 		nm := g.c.Rng.Intn(2)
